@@ -16,9 +16,14 @@
      F-C16c  ambiguous e j   — the text of exclusion e is the cursor of two
                                different paths of j (needs a key with '.'/'[');
      F-C16d  nodup_walked .. — an object the walk rebuilds repeats a key
-                               (the rebuilt object keeps one entry per key). *)
+                               (the rebuilt object keeps one entry per key).
+   Part C: the whole export path of the HAR collector (Execute: generateHAR,
+   size decision, export; Export.v): hiding holds for every record handed to
+   the exporter whatever the size decision; what is dropped is dropped
+   entirely; the decision reads the declared sizes only. *)
 From Coq Require Import List ZArith Bool.
 From Verif Require Import C16.Model C16.Spec C16.Proofs C16.ProofsAll.
+From Verif Require Import C16.Export C16.ExportSpec C16.ExportProofs.
 Import ListNotations.
 Open Scope Z_scope.
 
@@ -478,4 +483,116 @@ Example C16_body_cases :
   plugin_body Hx true [] [] None = OutText [35] /\
   obfuscate_body Hx true true [e_user_name_jp] [123] (Some doc) =
     OutJson (obfuscate_json Hx [e_user_name] doc).
+Proof. vm_compute. repeat split; reflexivity. Qed.
+
+(* ================================================================== *)
+(* Part C — the export path of the HAR collector (Export.v)            *)
+
+(* With obfuscation enabled, both bodies of EVERY record that Execute hands to
+   the exporter are hidden ([hidden_body]: empty, or the hash of the whole text
+   when the body is not JSON, or a document every leaf of which is an excluded
+   input leaf at the same path or the hash of an input leaf at the same path) —
+   for every size limit (given or not), every declared content-length (absent,
+   accurate, too small, too large, negative), every content-encoding, every real
+   body size, every exclusion set, every hash function. *)
+Theorem C16_export_hides_whatever_the_size_decision : export_hides_for VHead.
+Proof. exact export_hides_head. Qed.
+Print Assumptions C16_export_hides_whatever_the_size_decision.
+
+(* the bodies of an exported record ARE the call-site function of Parts A/B
+   applied to the body that goes into the HAR: every theorem about
+   [collector_body] / [obfuscate_body] (structure, excluded kept verbatim, no
+   cross exposure) speaks about the export path *)
+Theorem C16_export_bodies : forall H c rq rs,
+  execute VHead H c rq rs =
+  if too_large c rq rs then []
+  else [(obfuscate_body H (c_enabled c) true (c_excl c)
+           (fst (effective rq)) (snd (effective rq)),
+         obfuscate_body H (c_enabled c) false (c_excl c)
+           (fst (effective rs)) (snd (effective rs)))].
+Proof.
+  intros H c rq rs. unfold execute. rewrite !har_body_head. reflexivity.
+Qed.
+Print Assumptions C16_export_bodies.
+
+(* what is dropped is dropped entirely; what is not is exported once *)
+Theorem C16_export_dropped_entirely : forall v H c rq rs,
+  max_size c < declared_size rq rs -> execute v H c rq rs = [].
+Proof. exact execute_dropped. Qed.
+Print Assumptions C16_export_dropped_entirely.
+
+Theorem C16_export_exported_once : forall v H c rq rs,
+  declared_size rq rs <= max_size c ->
+  execute v H c rq rs = [(har_body v H c true rq, har_body v H c false rs)].
+Proof. exact execute_exported. Qed.
+Print Assumptions C16_export_exported_once.
+
+(* the size decision reads the limit and the two declared content-lengths only:
+   bodies, encodings, exclusions, the obfuscation switch, the hash function and
+   the variant of buildHARBody have no influence on it *)
+Theorem C16_export_decision_reads_declared_sizes_only :
+  forall v v' H H' c c' rq rs rq' rs',
+    max_size c = max_size c' ->
+    s_clen rq = s_clen rq' -> s_clen rs = s_clen rs' ->
+    (execute v H c rq rs = [] <-> execute v' H' c' rq' rs' = []).
+Proof. exact decision_declared_only. Qed.
+Print Assumptions C16_export_decision_reads_declared_sizes_only.
+
+(* Seeded change C16-8 (buildHARBody returns a body that is, on its own, longer
+   than a configured limit without obfuscating it): the statement is false.
+   Witness: limit 4, a chunked response (no content-length: declared size 0, so
+   the transaction is exported) with the 9-byte body {"a":"s"}. *)
+Definition side_empty : side := mkSide None EncNone [] None None.
+Definition body_as : bytes := [123;34;97;34;58;34;115;34;125].     (* {"a":"s"} *)
+Definition doc_as : json := JObj [(s_a, JStr [115])].
+Definition side_chunked : side := mkSide None EncNone body_as (Some doc_as) None.
+Definition cfg4 : config := mkConfig (Some 4) true [].
+
+Theorem C16_export_skip_oversize_refuted : ~ export_hides_for VSkipOversize.
+Proof.
+  intro C.
+  destruct (C Hx cfg4 side_empty side_chunked
+              (OutText [], OutJson doc_as) eq_refl (or_introl eq_refl)) as [_ Hs].
+  unfold hidden_body in Hs. cbn in Hs. destruct Hs as [_ [j [Ej Hl]]].
+  injection Ej as <-.
+  destruct (Hl [0%nat] [PKey s_a] (JStr [115]) eq_refl eq_refl)
+    as [ps' [v [_ [_ [[[e [p [[] _]]] _]|[_ Ew]]]]]].
+  discriminate Ew.
+Qed.
+Print Assumptions C16_export_skip_oversize_refuted.
+
+(* ... and it differs from /repo only where a declared size does not cover the
+   real size of the body that goes into the HAR (chunked, gzip, wrong header) *)
+Theorem C16_export_skip_oversize_same_when_declared_covers : forall H c rq rs,
+  blen (fst (effective rq)) <= extract_size rq ->
+  blen (fst (effective rs)) <= extract_size rs ->
+  execute VSkipOversize H c rq rs = execute VHead H c rq rs.
+Proof. exact skip_oversize_same_when_declared_covers. Qed.
+Print Assumptions C16_export_skip_oversize_same_when_declared_covers.
+
+(* Non-vacuity: on the witness /repo exports the hashed document, the seeded
+   variant the document in clear; with an accurate content-length both drop;
+   limit not given = 0: anything with a positive declared size is dropped, a
+   chunked one is exported; a gzip body is obfuscated as the decompressed document
+   while the decision sees the compressed length only. *)
+Definition side_accurate : side := mkSide (Some 9) EncNone body_as (Some doc_as) None.
+Definition side_gzip : side :=
+  mkSide (Some 3) EncGzip [31;139;8] None (Some (body_as, Some doc_as)).
+
+Example C16_export_on_witness :
+  execute VHead Hx cfg4 side_empty side_chunked =
+    [(OutText [], OutJson (JObj [(s_a, JStr [35;115])]))] /\
+  execute VSkipOversize Hx cfg4 side_empty side_chunked =
+    [(OutText [], OutJson doc_as)] /\
+  execute VHead Hx cfg4 side_empty side_accurate = [] /\
+  execute VSkipOversize Hx cfg4 side_empty side_accurate = [] /\
+  execute VHead Hx (mkConfig None true []) side_empty side_accurate = [] /\
+  execute VHead Hx (mkConfig None true []) side_chunked side_empty =
+    [(OutJson (JObj [(s_a, JStr [35;115])]), OutText [])] /\
+  execute VHead Hx cfg4 side_empty side_gzip =
+    [(OutText [], OutJson (JObj [(s_a, JStr [35;115])]))] /\
+  execute VSkipOversize Hx cfg4 side_empty side_gzip =
+    [(OutText [], OutJson doc_as)] /\
+  execute VHead Hx (mkConfig (Some 4) true [pre_response ++ [46;97]]) side_empty side_chunked =
+    [(OutText [], OutJson doc_as)].
 Proof. vm_compute. repeat split; reflexivity. Qed.
